@@ -68,7 +68,7 @@ func runC16(c *core.Ctx) {
 		}
 		path := []string{ssax.FuncName(f)}
 		if !check(f) {
-			path = staticReach(f, check, func(g *ssa.Function) bool {
+			path = r.reach(f, check, func(g *ssa.Function) bool {
 				return g.Pkg != nil && strings.HasPrefix(g.Pkg.Pkg.Path(), strings.TrimSuffix(ssax.Module, "/")) && !strings.Contains(g.Pkg.Pkg.Path(), "/pkg/logger")
 			})
 		}
